@@ -192,3 +192,25 @@ def bwSubchain (s : Supply) (wl : List Callback) (sub : List Nat) (limit : Nat)
     | e => e
 
 end RTA
+
+namespace RTA
+
+/-- the debug build of `bw::rta_subchain` first evaluates `brute_force_steps.peek()` on the
+infinite brute-force enumeration `(0..).filter(..)`: when NO offset is a relevant step
+(the end of the chain never releases anything and no polled callback has a step) this never
+returns (finding F11).  The model detects it as "no brute-force step within a generous
+horizon once the maximum offset has been found". -/
+def bwDebugHangs (s : Supply) (wl : List Callback) (sub : List Nat) (limit : Nat) : Bool :=
+  match sub.getLast? with
+  | none => false
+  | some e =>
+    if ¬ sub.all (· < wl.length) then false else
+    let eoc := wl.getD e default
+    let npp := sumPPBound wl sub
+    let rhsMax := fun ta =>
+      1 + bwInterference wl e eoc.kind npp ta ta + eoc.cost.ofJobs (eoc.arr.N ta)
+    match search s limit rhsMax with
+    | .ok maxOff => (bwBruteSteps wl e (4 * (maxOff + 64))).isEmpty
+    | _ => false
+
+end RTA
